@@ -44,10 +44,20 @@ def main():
     class ScriptedBaseFault(BaseException):
         """a fault that does not derive from Exception (like asyncio.CancelledError)"""
 
+    class BadStrFault(Exception):
+        """an exception whose text cannot be produced (a hand-written __str__ that uses an attribute it never set)"""
+
+        def __str__(self):
+            return "scripted fault %s" % self.never_set
+
+        __repr__ = Exception.__repr__
+
     def fault(k):
         msg = "scripted fault at invocation %d" % k
         if k % 3 == 0:
             return ScriptedBaseFault(msg)
+        if k % 7 == 5:
+            return BadStrFault(msg)
         if k % 4 == 1:
             return AttributeError(msg)      # what a misspelt attribute inside the callback raises
         if k % 4 == 2:
@@ -224,10 +234,19 @@ def main():
                     cb(["Setup", ix(self, i) if ok else 1000 + ix(self, i)])
                 return setup
             ns["setup"] = mk_setup(i)
+        plain_hooks = not spec.get("static_hooks") or any(c2.get("same_as") == i for c2 in case["comps"])
         if spec["has_enable"]:
-            (basens if spec["inherit"] else ns)["on_enable"] = (lambda i: lambda self: cb(["OnEnable", ix(self, i)]))(i)
+            if plain_hooks:
+                (basens if spec["inherit"] else ns)["on_enable"] = (lambda i: lambda self: cb(["OnEnable", ix(self, i)]))(i)
+            else:
+                # a hook need not be a bound method: a staticmethod is just as callable
+                ns["on_enable"] = staticmethod((lambda i: lambda: cb(["OnEnable", i]))(i))
         if spec["has_disable"]:
-            ns["on_disable"] = (lambda i: lambda self: cb(["OnDisable", ix(self, i)]))(i)
+            if plain_hooks:
+                ns["on_disable"] = (lambda i: lambda self: cb(["OnDisable", ix(self, i)]))(i)
+            else:
+                import functools
+                ns["on_disable"] = functools.partial((lambda i: lambda tag: cb(["OnDisable", i]))(i), "partial")
         for j, o in enumerate(owners):
             if o == i and fb_fn[j] == j:
                 # every other getter of an inheriting component is defined in its base class
@@ -319,6 +338,12 @@ def main():
 
     DS.setDsAttached(True)
     DS.setFmsAttached(bool(case["fms"]))
+    if case.get("match_type"):
+        # the DS can report a match type without an FMS (practice match on the bench): only the FMS flag counts
+        DS.setMatchType(getattr(wpilib.DriverStation.MatchType, case["match_type"]))
+    if case.get("auto_selector") is not None:
+        # the LabVIEW dashboard key: used only when it names a mode, otherwise the chooser selection counts
+        wpilib.SmartDashboard.putString("Auto Selector", case["auto_selector"])
     first = ticks[0]
     set_word(first)
     wpilib.DriverStation.refreshData()
@@ -347,7 +372,7 @@ def main():
     def _init(*a):
         r = _orig_init(*a)
         nd_handles.append(r[0] if isinstance(r, tuple) else r)
-        nds.append({"t0": fpga_now(), "alarms": [], "waits": []})
+        nds.append({"t0": fpga_now(), "alarms": [], "waits": [], "at": len(log)})
         return r
     hal.initializeNotifier = _init
     _orig_update = hal.updateNotifierAlarm
@@ -379,7 +404,11 @@ def main():
         try:
             robot.startCompetition()
         except BaseException as e:      # noqa
-            exc.append(type(e).__name__ + ": " + str(e))
+            try:
+                text = str(e)
+            except Exception:       # noqa: the exception's own __str__ raises
+                text = "scripted fault (its __str__ raises)" if type(e).__name__ == "BadStrFault" else "<no text>"
+            exc.append(type(e).__name__ + ": " + text)
 
     # components become visible to the scripted callbacks once created
     orig_create = Robot._create_components
